@@ -122,8 +122,20 @@ def run(rep, tier):
     # ---- R3
     for fn in (one("poll_multithreaded"), one("poll_singlethreaded")):
         ff = FactFlow(fn)
-        takes = [(b, i, ev) for b, i, ev in fn.all_events() if ev.get("k") in ("call", "ctor") and re.search(r"callbacks_\[[^\]]*\]\.cb_", T(ev)) and
-                 (callee_short(ev) == "enqueue" or T(ev).startswith("invoke_impl{") or re.search(r"\.cb_\(", T(ev)))]
+        # local reference aliases of a callbacks_ element (auto& info = callbacks_[k]) are expanded before matching
+        alias = {}
+        for b, i, ev in fn.all_events():
+            if ev.get("k") == "decl" and str(ev.get("type", "")).rstrip().endswith("&") and ev.get("init") is not None and \
+                    re.search(r"callbacks_\[[^\]]*\]$", T(strip(ev["init"]))):
+                alias[ev.get("var")] = T(strip(ev["init"]))
+
+        def TX(ev, alias=alias):
+            t = T(ev)
+            for a_, full in alias.items():
+                t = re.sub(r"(?<![\w.>])%s(?=\.)" % re.escape(a_), full, t)
+            return t
+        takes = [(b, i, ev) for b, i, ev in fn.all_events() if ev.get("k") in ("call", "ctor") and re.search(r"callbacks_\[[^\]]*\]\.cb_", TX(ev)) and
+                 (callee_short(ev) == "enqueue" or TX(ev).startswith("invoke_impl{") or re.search(r"\.cb_\(", TX(ev)))]
         if not takes:
             raise AnalysisBroken("%s: no use of callbacks_[..].cb_ found" % fn.qname)
         for b, i, ev in takes:
@@ -132,7 +144,7 @@ def run(rep, tier):
             reported = any((not t) and re.search(r"(^|\W)rindex$|^rindex ==", a) and "==" in a for a, t in fb) or \
                 any(t and re.search(r"\bi < num_completed", a) for a, t in fb)
             blk = fn.blocks[b]
-            m = re.search(r"callbacks_\[([^\]]*)\]\.cb_", T(ev))
+            m = re.search(r"callbacks_\[([^\]]*)\]\.cb_", TX(ev))
             idx = m.group(1)
             nulled = any(e.get("k") == "write" and re.search(r"requests_\[%s\]$" % re.escape(idx), P(e["lhs"])) and "MPI_REQUEST_NULL" in T(e.get("rhs")) or
                          (e.get("k") == "write" and re.search(r"requests_\[%s\]$" % re.escape(idx), P(e["lhs"])) and T(strip(e.get("rhs"))) in ("0", "nullptr"))
@@ -144,6 +156,17 @@ def run(rep, tier):
             else:
                 rep.bad("C20.R3", fn, loc_of(ev), "take:%s" % fn.qname.rsplit("::", 1)[-1], "a callback is taken for an index that MPI did not report as complete (%s) or its request slot is not nulled (%s): "
                         "the sender completes before the transfer finished, or twice" % (reported, nulled))
+
+        # converse: a request slot is retired (set to MPI_REQUEST_NULL) only for an index whose callback is taken
+        taken_idx = set(re.search(r"callbacks_\[([^\]]*)\]\.cb_", TX(ev)).group(1) for b, i, ev in takes)
+        for b, i, ev in fn.all_events():
+            if ev.get("k") == "write" and re.search(r"requests_\[[^\]]*\]$", P(ev["lhs"])) and ("MPI_REQUEST_NULL" in T(ev.get("rhs")) or "request_null" in T(ev.get("rhs")) or T(strip(ev.get("rhs"))) in ("0", "nullptr")):
+                x = re.search(r"requests_\[([^\]]*)\]$", P(ev["lhs"])).group(1)
+                if x in taken_idx or x.strip("()") in set(t.strip("()") for t in taken_idx):
+                    rep.ok("C20.R3", fn, "requests_[%s] retired together with its callback" % x)
+                else:
+                    rep.bad("C20.R3", fn, loc_of(ev), "retire:%s" % fn.qname.rsplit("::", 1)[-1], "requests_[%s] is set to MPI_REQUEST_NULL but the callback taken is [%s]: "
+                            "an unrelated, still pending request is dropped together with its callback (its receiver is never signalled)" % (x, ", ".join(sorted(taken_idx))))
 
     # ---- R4
     T_ = facts(rep, driver("c20_mpi.cpp"), [r"^pika::transform_mpi_detail::", r"^pika::mpi::experimental::detail::"], extra=core.MPI_FLAGS)
